@@ -157,6 +157,18 @@ def _requests() -> dict[str, Callable[[], dict[str, Any]]]:
         "ir_mode": mk(f_ok, return_mode="ir"),
     }
 
+    # one @onnx_function target, two requests: its body raises while it is traced for the function
+    # definition (fail), or does not (ok).  The flag is set when the request is built.
+    def mk_flaky(fail: bool):
+        def build():
+            userfns.CALLS["fail_even"] = fail
+            return dict(fn=f_fn_bodytrace_fail, inputs=spec)
+
+        return build
+
+    reqs["fn_flaky_fail"] = mk_flaky(True)
+    reqs["fn_flaky_ok"] = mk_flaky(False)
+
     # a user-owned jit function that was never called before the export (trace cache is cold)
     def mk_jit_user():
         @jax.jit
